@@ -151,12 +151,28 @@ fn check_params(o: &mut Outcome, a: &Ask, what: &str, p: &QueryParams, expect_pa
 pub fn run_c09_b(ctx: &Ctx) -> Outcome {
     let mut o = Outcome::new();
     let rt = runtime(4);
+    let mut rng = ctx.rng(909);
+    // worlds: what the client asks for x what the node offers. The node decodes every frame with the compression
+    // negotiated in STARTUP (none if the algorithm was not offered) - a frame compressed without negotiation, or a
+    // STARTUP naming an algorithm that was not offered, is a malformed frame seen by the node.
+    use scylla::frame::Compression as DC;
+    let worlds: [(&str, Option<DC>, bool, bool); 5] = [
+        ("compression:none", None, false, false),
+        ("compression:lz4-negotiated", Some(DC::Lz4), false, false),
+        ("compression:snappy-negotiated", Some(DC::Snappy), false, false),
+        ("compression:lz4-asked-node-offers-snappy-only", Some(DC::Lz4), true, false),
+        ("compression:snappy-asked-node-offers-none", Some(DC::Snappy), true, true),
+    ];
+    for (wname, client_comp, no_lz4, no_snappy) in worlds {
     rt.block_on(async {
         let cap = Arc::new(Capture { seen: Mutex::new(vec![]) });
         let mut spec = single_node_spec();
+        spec.nodes[0].features.no_lz4 = no_lz4;
+        spec.nodes[0].features.no_snappy = no_snappy;
         spec.keyspaces[0].tables.push(TableDef::new("cap", &[("op", "bigint")], &[("a", "int"), ("b", "text"), ("c", "bigint")]));
         let cluster = MockCluster::start(spec, cap.clone()).await;
-        let session = match connect(&cluster, |b| b).await {
+        o.class(wname);
+        let session = match connect(&cluster, |b| b.compression(client_comp)).await {
             Ok(s) => s,
             Err(e) => {
                 o.inconclusive(format!("C09 part b could not start: {e}"));
@@ -171,8 +187,7 @@ pub fn run_c09_b(ctx: &Ctx) -> Outcome {
             }
         };
         let sel = session.prepare(T_SEL).await.unwrap();
-        let mut rng = ctx.rng(909);
-        let n = ctx.vol(600, 30_000);
+        let n = ctx.vol(600, 30_000) / if client_comp.is_none() { 2 } else { 8 };
         for _ in 0..n {
             let a = Ask {
                 op: next_op(),
@@ -335,10 +350,21 @@ pub fn run_c09_b(ctx: &Ctx) -> Outcome {
             }
         }
         for v in cluster.log().violations() {
-            o.violation("c09b:malformed-frame-seen-by-node", v, json!({"part": "b"}));
+            o.violation("c09b:malformed-frame-seen-by-node", v, json!({"part": "b", "world": wname}));
+        }
+        // with compression negotiated the node must actually have seen compressed request frames
+        if client_comp.is_some() && !no_lz4 && !no_snappy {
+            let compressed = cluster.established(0).iter().filter(|c| c.compression().is_some()).count();
+            if compressed == 0 {
+                o.violation("c09b:compression-not-negotiated", format!("{wname}: no connection of the session negotiated the compression the client configured and the node offers"), json!({"part": "b", "world": wname}));
+            }
         }
         cluster.shutdown();
     });
+    }
+    for c in ["compression:none", "compression:lz4-negotiated", "compression:snappy-negotiated", "compression:lz4-asked-node-offers-snappy-only", "compression:snappy-asked-node-offers-none"] {
+        o.require_class(c);
+    }
     for c in ["api:query_unpaged", "api:execute_unpaged", "api:batch", "api:query_single_page", "api:execute_single_page", "paging-state-returned-verbatim", "frame-re-sent-after-UNPREPARED"] {
         o.require_class(c);
     }
